@@ -16,6 +16,10 @@ var UnsupportedLangs = []int{-1, 10, 100, 1 << 40}
 var entSizes = []int{16, 20, 24, 28, 32}
 var wordCounts = []int{12, 15, 18, 21, 24}
 
+// JumpVals are the idle periods and read durations, in simulated milliseconds, that the clock seam lets pass:
+// just past the round thresholds a timeout, a TTL or a sweep interval is plausibly set to.
+var JumpVals = []int64{50, 1100, 2500, 5100, 10100, 31000, 61000, 301000, 3601000, 90000000, 2678400000, 34560000000}
+
 func setM(op *plan.Op, s string) { op.M, op.MX = plan.SetStr(s) }
 func setP(op *plan.Op, s string) { op.P, op.PX = plan.SetStr(s) }
 
